@@ -10,6 +10,7 @@ from qv import bounds
 
 from qv.esp import Engine, Outcome, TOP, fs
 from qv.lib import QHooks
+from rules import libtab as _libtab
 
 
 class ParseBoundsHooks(QHooks):
@@ -19,6 +20,22 @@ class ParseBoundsHooks(QHooks):
         self.n = n
         self.bad = None
         self.done = 0
+
+    # the byte-search helpers of the library on concrete bytes (a character class may be a table searched with byte_chr/memchr)
+    mem = _libtab.SAConc.mem
+    cstring = _libtab.SAConc.cstring
+    prim_byte_chr = _libtab.SAConc.prim_byte_chr
+    prim_byte_rchr = _libtab.SAConc.prim_byte_rchr
+    prim_str_chr = _libtab.SAConc.prim_str_chr
+
+    def prim_memchr(self, E, x, args):
+        from qv.esp import ptr_add
+        p_, c_, n_ = (_libtab._one(a) for a in args[:3])
+        m_ = self.mem(E, p_, n_) if isinstance(n_, int) and 0 <= n_ < 4096 else None
+        if m_ is None or not isinstance(c_, int):
+            return [Outcome(ret=TOP)]
+        i = m_.find(bytes([c_ & 255]))
+        return [Outcome(ret=fs(ptr_add(p_, i)) if i >= 0 else fs(0))]
 
     def tracked_global(self, path):
         return True
@@ -390,9 +407,6 @@ def report_read_sites(db, rep):
         raise AnalysisBroken('qmail-lspawn report(): the output is never written')
     out['lspawn-report:reads-only-the-len-bytes-of-the-output'] = (bad is None, 'qmail-lspawn.c:report', bad[0] if bad else '%d writes of the output explored, each inside its len bytes' % puts, bad[1] if bad else [])
     return out
-
-
-from rules import libtab as _libtab
 
 
 class GetpwHooks(_libtab.SAConc, QHooks):
